@@ -266,6 +266,7 @@ class AsyncOperation(Generic[V, RHS]):
         operator.lshift: '<<',
         operator.rshift: '>>',
         operator.and_: '&',
+        operator.xor: '^',
         operator.or_: '|'
     }
 
